@@ -33,4 +33,17 @@ CONF["C02"] = {
     "assumptions": ["fitmodel base type table and interpreter are correct readings of the FIT protocol", "hook table export is faithful (it copies the table entries)"],
 }
 
+CONF["C01"] = {
+    "pkg": "c01",
+    "level": "exploration",
+    "exhaustive_claim": False,
+    "technique": "exhaustive single-field definition grid + rapid structural mutation of generated streams and corpus files through all entry points and chunkings, with recover() and a hang watchdog as oracle; native go fuzzing in the thorough tier",
+    "level_text": "Totality cannot be proved by testing; the check enumerates the whole single-field definition space named in the property (thorough: every profile field x 256 base bytes x 256 sizes x 2 byte orders, plus non-profile field numbers and unknown messages) and searches multi-field / malformed inputs by structured mutation and coverage-guided fuzzing, through all six entry-point variants and several read chunkings. 'No hang' is a 20 s watchdog on inputs that normally take microseconds.",
+    "level_note": "Trusted: recover() sees every panic on the calling goroutine (the library starts none); readers that violate io.Reader (0,nil forever) are outside the domain. Multi-field interactions are sampled, not enumerated.",
+    "quick": {"checks": 6000, "timeout": 600, "shrinktime": "10s"},
+    "thorough": {"checks": 300000, "timeout": 3000, "shrinktime": "30s", "fuzz": {"target": "FuzzDecodeAll", "seconds": 150}},
+    "rule": "grid: file = header + file_id + one definition with one field (num, size, base byte) in one byte order + one data record + CRC; every cell is distinct; non-trivial = Decode accepted the definition and the field is a profile field (a value is stored by reflection). mutants: rapid-drawn structural mutations (sizes, base bytes, field numbers, message numbers, byte order, local types, duplicate/drop/swap/truncate records, developer flags, 255-field definitions, header fields) of generated streams and of repository .fit files, CRC/size repaired 70% of the time, plus raw byte strings; read through whole/1-byte/fixed/list/data+EOF chunkings; non-trivial = DecodeHeader accepts the input (it got past the header); distinct by fingerprint of the bytes.",
+    "assumptions": ["recover() on the calling goroutine observes every panic of the library", "a decode of a <20 KiB input that takes more than 20 s is a hang"],
+}
+
 NOT_APPLICABLE = {}
